@@ -1,7 +1,7 @@
 (* Properties_C14.v — property C14: factored objects mean the same as their flat expansion.
    Only statements, each closed by [exact <lemma>] and followed by Print Assumptions. *)
 From Coq Require Import List Arith QArith Lia.
-From AIT Require Import C14.Model C14.Spec C14.Proofs C14.ProofsEnum C14.ModelAlg C14.SpecAlg C14.ProofsAlg C14.ModelDDN C14.SpecDDN C14.ProofsDDN.
+From AIT Require Import C14.Model C14.Spec C14.Proofs C14.ProofsEnum C14.ModelAlg C14.SpecAlg C14.ProofsAlg C14.ModelDDN C14.SpecDDN C14.ProofsDDN C14.Model2D C14.Spec2D C14.Proofs2D.
 Import ListNotations.
 Local Close Scope Q_scope.
 
@@ -256,4 +256,52 @@ Proof.
   split. { intros i Hi. cbn in Hi. destruct i as [|[|i]]; [cbn; lia | cbn; lia | lia]. }
   split. { intros i Hi. cbn in Hi. destruct i as [|[|i]]; [vm_compute; reflexivity | vm_compute; reflexivity | lia]. }
   vm_compute. reflexivity.
+Qed.
+
+(* ================================================================================================
+   toFactors' out-parameter overload and FactoredMatrix2D
+   ================================================================================================ *)
+
+(* toFactors(space, id, Factors * out): every entry of the (reused, dirty) buffer is written — the
+   result does not depend on the buffer's previous content *)
+Theorem toFactors_out_overwrites : forall space id out, length out = length space ->
+  toFactorsOut space id out = toFactors space id.
+Proof. exact toFactorsOut_overwrites_lemma. Qed.
+Print Assumptions toFactors_out_overwrites.
+
+Theorem getValue2D_flat : forall SS AA fm s a, getValue2D SS AA fm s a == flat2 SS AA fm s a.
+Proof. exact getValue2D_flat_lemma. Qed.
+Print Assumptions getValue2D_flat.
+
+(* FactoredMatrix2D::operator*=(Vector): (M * w)(s,a) = sum_i w_i * b_i(s,a) (+ the constant) *)
+Theorem weighted_flat_2d : forall SS AA fm w s a,
+  fm_wf SS AA fm -> in_space SS s -> in_space AA a ->
+  (length w = length fm \/ (length w = S (length fm) /\ fm <> [])) ->
+  flat2 SS AA (scaleW2D fm w) s a ==
+  wsum2 SS AA fm s a w + (if (length w =? S (length fm))%nat then nth (length fm) w 0 else 0).
+Proof. exact scaleW2D_flat_lemma. Qed.
+Print Assumptions weighted_flat_2d.
+
+Theorem weighted_getValue_flat_2d : forall SS AA fm w s a, (length fm <= length w)%nat ->
+  getValueW2D SS AA fm s a w ==
+  wsum2 SS AA fm s a w + (if (length w =? S (length fm))%nat then nth (length fm) w 0 else 0).
+Proof. exact getValueW2D_spec_lemma. Qed.
+Print Assumptions weighted_getValue_flat_2d.
+
+Theorem scale_flat_2d : forall SS AA fm v s a, fm_wf SS AA fm -> in_space SS s -> in_space AA a ->
+  flat2 SS AA (scale2D fm v) s a == v * flat2 SS AA fm s a.
+Proof. exact scale2D_flat_lemma. Qed.
+Print Assumptions scale_flat_2d.
+
+Example ex_2d_nonvacuous :
+  let SS := [2;2]%nat in let AA := [2]%nat in
+  let b1 := mkBm [0%nat] [0%nat] [[1;2];[3;4]] in
+  let b2 := mkBm [0;1]%nat [0%nat] [[1;0];[0;1];[2;2];[5;7]] in
+  fm_wf SS AA [b1; b2] /\ in_space SS [1;1]%nat /\ in_space AA [1%nat] /\
+  flat2 SS AA (scaleW2D [b1; b2] [2; 3; 4]) [1;1]%nat [1%nat] == 33 /\
+  toFactorsOut [2;3;2]%nat 1 [1;2;1]%nat = [1;0;0]%nat.
+Proof.
+  cbv zeta. split.
+  { repeat constructor. }
+  split; [repeat constructor|]. split; [repeat constructor|]. split; [vm_compute; reflexivity | reflexivity].
 Qed.
